@@ -88,7 +88,7 @@ def labware_op(name, sign, exc, limit_clause):
     op = "vol_minus" if sign == "-" else "vol_plus"
     viol = violation_at(sign)
     return Contract(
-        func=L + name, serves=["C02", "C04", "C11"],
+        func=L + name, serves=["C02", "C04", "C11", "C05"],
         scenarios=[scen(k, t) for t in (False, True) for k in KINDS],
         raises=[
             ("AssertionError", f"(not {SHAPE_OK}) or (not {VOLS_OK})"),
@@ -100,7 +100,7 @@ def labware_op(name, sign, exc, limit_clause):
             ("limit", f"forall(0, {N}, lambda i: {limit_clause})", ["C02"]),
             ("one-history-entry", "same(self._history, old_self._history + [self._volumes]) and same(self._labels, old_self._labels + [label])", ["C11"]),
             ("entry-is-a-snapshot", "not_aliased(last(self._history), self._volumes)", ["C11"]),
-            ("frame", "fields_unchanged(self, old_self, ['_volumes', '_history', '_labels'])", ["C02", "C04", "C11"]),
+            ("frame", "fields_unchanged(self, old_self, ['_volumes', '_history', '_labels'])", ["C02", "C04", "C11", "C05"]),
         ],
         updates={"self._volumes": f"{op}(self._volumes, contrib(self, wells, volumes))",
                  "self._history": f"self._history + [{op}(self._volumes, contrib(self, wells, volumes))]",
